@@ -34,8 +34,13 @@ func (w *ResponseCapture) WriteHeader(code int) {
 	w.ResponseWriter.WriteHeader(code)
 }
 
-// Write computes the written len and stores it in ContentLength.
+// Write computes the written len and stores it in ContentLength. If
+// WriteHeader has not been called yet the underlying writer sends an implicit
+// 200 which is recorded in StatusCode.
 func (w *ResponseCapture) Write(b []byte) (int, error) {
+	if w.StatusCode == 0 {
+		w.StatusCode = http.StatusOK
+	}
 	n, err := w.ResponseWriter.Write(b)
 	w.ContentLength += n
 	return n, err
@@ -45,6 +50,10 @@ func (w *ResponseCapture) Write(b []byte) (int, error) {
 // writer supports it.
 func (w *ResponseCapture) Flush() {
 	if f, ok := w.ResponseWriter.(http.Flusher); ok {
+		if w.StatusCode == 0 {
+			// flushing sends the headers with an implicit 200
+			w.StatusCode = http.StatusOK
+		}
 		f.Flush()
 	}
 }
